@@ -451,8 +451,10 @@ WBody(e)   == <<TVi("w.count", RunsLen(e.wit))>>
               \o [k \in 1..Len(e.wit) |->
                      TRep("wi", e.wit[k].n, <<TVi("wi.len", e.wit[k].e.l)>> \o Bytes("wi.data", e.wit[k].e.l))]
 
+\* (a value with the field `force` stands for an input no encoder writes: the segwit marker, flag
+\* and witness section although no input has a witness)
 EncTx(tx, enc) ==
-    LET dw == enc = "witness" /\ HasWit(tx) IN
+    LET dw == enc = "witness" /\ (HasWit(tx) \/ "force" \in DOMAIN tx) IN
     <<TInt("version", 4)>>
     \o (IF dw THEN <<TConst("marker", <<0>>), TConst("flag", <<1>>)>> ELSE <<>>)
     \o <<TVi("in.count", RunsLen(tx.ins))>>
